@@ -81,6 +81,15 @@ def c03_boundary():
                         rules = [{"remote": 0, "mtype": "CON", "nth": k, "after": gap + delta, "do": do}]
                         scripts.append(dict(base, events=[sub, far_end([sub])], rules=rules,
                                             tag=f"{do}@copy{k}{delta:+d}:{at}:{factor}:{mr}"))
+                # a piggy-backed response under the right message id but an unknown token, and one
+                # for a request the application has already cancelled: both still are ACKs
+                rules = [{"remote": 0, "mtype": "CON", "nth": k, "after": 555, "do": "piggy-badtoken", "body": 3}]
+                scripts.append(dict(base, events=[sub, far_end([sub])], rules=rules,
+                                    tag=f"piggy-badtoken@copy{k}:{at}:{factor}:{mr}"))
+                rules = [{"remote": 0, "mtype": "CON", "nth": k, "after": 555, "do": "piggy", "body": 3}]
+                tcancel = 1000 + (T0 * (2 ** (k - 1) - 1) if k > 1 else 0) + 100
+                scripts.append(dict(base, events=[sub, ["C", tcancel, 0], far_end([sub])], rules=rules,
+                                    tag=f"piggy-after-cancel@copy{k}:{at}:{factor}:{mr}"))
                 for do in ("wrongmid", "wrongsrc"):
                     for ptype in ("ACK", "RST"):
                         rules = [{"remote": 0, "mtype": "CON", "nth": k, "after": 777, "do": do, "ptype": ptype}]
@@ -102,7 +111,7 @@ def c03_random(rng):
                              code=rng.choice([GET, POST, PUT])))
         k = rng.randrange(1, mr + 3)
         if k <= mr + 1:
-            do = rng.choice(["ack", "rst", "piggy", "wrongmid", "wrongsrc", "ack", "piggy"])
+            do = rng.choice(["ack", "rst", "piggy", "wrongmid", "wrongsrc", "ack", "piggy", "piggy-badtoken"])
             after = rng.choice([1, 500, rng.randrange(1, at), rng.randrange(1, 40 * M)])
             rule = {"remote": remote, "mtype": "CON", "nth": k, "after": after, "do": do,
                     "body": rng.randrange(1, 50)}
